@@ -388,6 +388,9 @@ struct VegasFunc : SimCore<T>
     {
         Ctx& c = ctx();
         if (c.in_nested) return T(0.5) + pt.point()[0];   // the inner integration of a nesting integrand
+        // the bins as they are on entry (what the library books the point under), the coordinates as
+        // they are after the integrand's own nested integration (what the integrand evaluates)
+        std::vector<std::size_t> const bins_on_entry(pt.bin());
         SimCore<T>::maybe_nest(c, pt.point(), 0);
         CallRec& r = this->begin_call(c);
         r.entered = true;
@@ -395,7 +398,7 @@ struct VegasFunc : SimCore<T>
         r.off_u = static_cast<std::uint32_t>(c.arena.size());
         for (T v : pt.point()) c.arena.push_back(v);
         r.off_bin = static_cast<std::uint32_t>(c.bins.size());
-        for (std::size_t b : pt.bin()) c.bins.push_back(static_cast<std::uint32_t>(b));
+        for (std::size_t b : bins_on_entry) c.bins.push_back(static_cast<std::uint32_t>(b));
         T const f = this->body(c, r, pt.point(), 0, pt, pr, true);
         ++c.cur_call;
         return f;
